@@ -332,7 +332,7 @@ func runHist(w *fw.W) {
 					continue
 				}
 				for _, op := range sub {
-					if w.Expired() {
+					if w.ExpiredNow() {
 						closed = false
 						break
 					}
@@ -525,7 +525,7 @@ func exploreScenario(w *fw.W, threads [][]string, sc schedCfg, maxExec int) sche
 	started := time.Now()
 	wallCap := time.Duration(w.Pick(15, 90)) * time.Second
 	for len(stack) > 0 {
-		if out.executions >= maxExec || w.Expired() || time.Since(started) > wallCap {
+		if out.executions >= maxExec || w.ExpiredNow() || time.Since(started) > wallCap {
 			out.complete = false
 			break
 		}
